@@ -40,7 +40,6 @@ CONSTANTS Source,       \* "enum" | "file"
           BMenu,        \* "tiny" | "small" | "full": fault sets tried for B's own docstring
           Ns,           \* numbers of errors a parser that returns with errors may report (subset of 1..2)
           PoisonedCache, \* TRUE while the tree has deviation epytext-half-built-document-cached (a to_node that fails keeps failing otherwise)
-          SummaryMarksSource, \* TRUE while the tree has deviation summary-fallback-marks-source (format_summary passes the SOURCE as ctx)
           TocGuarded    \* FALSE while the tree has deviation format-toc-unguarded (TRUE: a to_node failure inside get_toc yields no toc)
 
 Objs == {"A", "B", "V"}
@@ -156,8 +155,9 @@ DocstringStep(s, o) ==
 SummaryStep(s, o) ==
     LET s1 == EnsureParsed(s, o)
         f  == F[Text(o)]
-        \* format_summary_fallback(errs, doc, ctx) sets ctx.parsed_summary; format_summary hands it the SOURCE as ctx
-        mark == IF SummaryMarksSource THEN Src(o) ELSE o
+        \* format_summary_fallback(errs, doc, ctx) sets ctx.parsed_summary; format_summary hands it obj as ctx (092c61e;
+        \* it used to be the source: the failing summary of an attribute broke the summary of its class)
+        mark == o
         \* _get_parsed_summary: cached, else parsed_docstring.get_summary()
         once  == s1.pd[o] = "parsed" /\ f.node = "once"
         fresh == IF f.summary = "broken" \/ (once /\ (~s1.pz[o] \/ ~PoisonedCache)) THEN "brokensum" ELSE "ok"
@@ -259,10 +259,10 @@ ReportedWhenRenderFails == \A x \in Results : (x.op = "docstring" /\ (F[Text(x.o
 OneReport == \A o \in Objs : nrep[o] \in {0, 1, F[o].n} /\ (nrep[o] > 0 <=> o \in perr)
 \* a summary is never a failure to produce one
 SummaryAlways == \A x \in Results : x.op = "summary" => x.r \in {"summary", "brokensum", "broken", "undoc"}
-\* frame: working on one object changes nothing of another one, with two exceptions that follow from where the TEXT lives:
-\* errors are reported against the source (the object whose docstring holds the text), and - the documented sharing - the
-\* summary fallback of an INHERITED docstring marks the source, whose summary is the same text.  What another object has
-\* parsed is never touched, and the summary of a class is not the business of its attributes.
+\* frame: working on one object changes nothing of another one, with one exception that follows from where the TEXT lives:
+\* errors are reported against the source (the object whose docstring holds the text).  (The statement also allows the
+\* summary fallback of an INHERITED docstring to mark the source; since 092c61e the code does not even do that.)  What
+\* another object has parsed is never touched, and the summary of a class is not the business of its attributes.
 Stepped(o) == i' = i + 1 /\ res'[Len(res')].o = o
 FrameClause(o, p, waive) ==
     /\ pd'[p] = pd[p] /\ pz'[p] = pz[p]
@@ -270,10 +270,6 @@ FrameClause(o, p, waive) ==
     /\ ((p = Src(o) /\ ~(o = "B" /\ inherit) /\ ~waive) => ps'[p] = ps[p])
 FrameOK == \A o \in Objs : \A p \in Objs \ {o} : Stepped(o) => FrameClause(o, p, FALSE)
 Frame == [][FrameOK]_vars
-\* known finding (findings.d/C08.json  summary-fallback-marks-source): the failing summary of a field-documented attribute
-\* replaces the summary of its parent class by "Broken description"
-FrameOrKF == [][\A o \in Objs : \A p \in Objs \ {o} : Stepped(o) =>
-                   FrameClause(o, p, SummaryMarksSource /\ o = "V" /\ p = "A" /\ ps'[p] = "brokenstan")]_vars
 \* an inherited / field docstring never changes what the source itself has parsed (part of Frame, stated for the reader)
 SourceParseUntouched == [][\A o \in Objs : (Stepped(o) /\ Src(o) # o) => pd'[Src(o)] = pd[Src(o)]]_vars
 
